@@ -38,20 +38,28 @@ def check_init(ctx):
     wl = [w for w in ast.walk(init) if isinstance(w, ast.While)]
     ok = len(wl) == 1 and norm_src(wl[0].test) == "self.partition.get_depth() < self.search_depth" and [norm_src(s) for s in wl[0].body] == ["self.partition.deepen()"]
     ctx.ob("R13-FORM", ok, c.file, q, "tree pre-built to the ranking depth", "while depth < search_depth: deepen()" if ok else "not recognised", init.lineno)
-    # normaliser: sum over h = 1..search_depth, l = 1..2^h of 1/(h l)
-    loops = [l for l in init.body if isinstance(l, ast.For)]
+    # normaliser: sum over h = 1..search_depth, l = 1..2^h of 1/(h l) - the accumulation loops are summarised as a symbolic
+    # double sum (temporaries, a local accumulator stored afterwards and either nesting of the factors are all the same sum)
+    Sm2 = SM.Summarizer(model, "VROOM")
+    Sm2.skip_loops = True
     okc = False
-    if len(loops) == 1 and isinstance(loops[0].target, ast.Name):
-        L = loops[0]
-        h = L.target.id
-        inner = [s for s in L.body if isinstance(s, ast.For)]
-        if norm_src(L.iter) == "range(1, self.search_depth + 1)" and len(inner) == 1 and len(L.body) == 1 and isinstance(inner[0].target, ast.Name):
-            l = inner[0].target.id
-            okc = norm_src(inner[0].iter) == "range(1, 2 ** %s + 1)" % h and [norm_src(s) for s in inner[0].body] in (
-                ["self.const += 1 / (%s * %s)" % (h, l)], ["self.const += 1 / (%s * %s)" % (l, h)])
-        zero = [s for s in init.body if isinstance(s, ast.Assign) and is_self_attr(s.targets[0], "const")]
-        okc = okc and len(zero) == 1 and norm_src(zero[0].value) == "0" and init.body.index(zero[0]) < init.body.index(L)
-    ctx.ob("R13-WEIGHT", okc, c.file, q, "C = sum_{h=1..D} sum_{l=1..2^h} 1/(h l)", "double loop recognised" if okc else "normaliser loop not recognised", init.lineno)
+    whyc = "normaliser loop not recognised"
+    try:
+        ps2 = [p2 for p2 in Sm2.run(init) if not p2.raises]
+        v0, v1 = sp.Symbol("SUMVAR0", integer=True, positive=True), sp.Symbol("SUMVAR1", integer=True, positive=True)
+        Dsym = None
+        vals = []
+        for p2 in ps2:
+            cv = p2.stores.get("const")
+            vals.append(cv)
+            Dsym = p2.stores.get("search_depth", Sm2.T.sym("search_depth"))
+        ref = sp.Sum(sp.Sum(1 / (v0 * v1), (v1, 1, 2 ** v0)), (v0, 1, Dsym)) if Dsym is not None else None
+        okc = bool(vals) and all(cv is not None and ref is not None and sp.simplify(cv - ref) == 0 for cv in vals)
+        if not okc:
+            whyc = "self.const is %s" % (vals[:1],)
+    except (SM.HasLoop, SX.Untranslatable) as ex:
+        whyc = "cannot summarise __init__: %s" % ex
+    ctx.ob("R13-WEIGHT", okc, c.file, q, "C = sum_{h=1..D} sum_{l=1..2^h} 1/(h l)", "double sum recognised" if okc else whyc, init.lineno)
 
 
 def check_rank(ctx):
